@@ -78,6 +78,8 @@ fn evs_from_json(v: &Value) -> Vec<Ev> {
 struct Viol3 {
     sig: String,
     detail: String,
+    /// panic location file:line (evidence only; signatures carry no line numbers)
+    loc: String,
 }
 
 fn medium_sig(m: Medium) -> &'static str {
@@ -90,10 +92,12 @@ fn outcome_viol(cfg: Cfg, o: &Outcome, ctx: &str) -> Option<Viol3> {
         Outcome::Panic { msg, site, loc } => Some(Viol3 {
             sig: format!("C03/panic/{}/{}/{}", medium_sig(cfg.medium), site, panic_tag(msg)),
             detail: format!("Interface::poll panicked {}: '{}' at {} [config {}]", ctx, msg, loc, cfg.name()),
+            loc: loc.clone(),
         }),
         Outcome::Hang { detail } => Some(Viol3 {
             sig: format!("C03/hang/{}/device-loop", medium_sig(cfg.medium)),
             detail: format!("Interface::poll did not return {}: {} [config {}]", ctx, detail, cfg.name()),
+            loc: String::new(),
         }),
     }
 }
@@ -115,6 +119,7 @@ fn probe_viol(cfg: Cfg, p: &ProbeResult, ctx: &str) -> Option<Viol3> {
     Some(Viol3 {
         sig: format!("C03/wedged/{}/{}", medium_sig(cfg.medium), dead.join("+")),
         detail: format!("no echo reply to the trailing probe {} [config {}]; probe log: {:?}", ctx, cfg.name(), p.log),
+        loc: String::new(),
     })
 }
 
@@ -126,32 +131,14 @@ struct RunOut {
     setup_err: Option<String>,
 }
 
-/// World set-up itself may panic (e.g. 802.15.4 + joined group): classified as a C03 panic
-/// with zero received frames; anything else that prevents set-up is a machinery error.
-fn setup_viol(cfg: Cfg, err: &str) -> Option<Viol3> {
-    if let Some(rest) = err.strip_prefix("PANIC in poll during set-up") {
-        let loc = rest.rsplit(" at ").next().unwrap_or("").to_string();
-        let site = {
-            let l = loc.strip_prefix("/repo/").unwrap_or(&loc);
-            match l.rfind(':') {
-                Some(i) => l[..i].to_string(),
-                None => l.to_string(),
-            }
-        };
-        return Some(Viol3 {
-            sig: format!("C03/panic/{}/{}/{}-before-any-frame", medium_sig(cfg.medium), site, panic_tag(rest)),
-            detail: format!("Interface::poll panicked during world set-up, before any frame of the sequence{} [config {}]", rest, cfg.name()),
-        });
-    }
-    None
-}
-
 fn run_events(cfg: Cfg, evs: &[Ev], want_log: bool) -> RunOut {
     let mut log = vec![];
     let mut w = match World::new(cfg) {
         Ok(w) => w,
         Err(e) => {
-            return RunOut { viol: setup_viol(cfg, &e), fp: 0, log: vec![e.clone()], setup_err: Some(e) };
+            // not a C03 verdict: no frame has been received yet (callers turn it into a note /
+            // machinery error)
+            return RunOut { viol: None, fp: 0, log: vec![e.clone()], setup_err: Some(e) };
         }
     };
     for (i, ev) in evs.iter().enumerate() {
@@ -172,6 +159,9 @@ fn run_events(cfg: Cfg, evs: &[Ev], want_log: bool) -> RunOut {
         }
     }
     let fp = w.fingerprint();
+    if want_log {
+        log.push(format!("interface addresses now: {:?}", w.iface.ip_addrs()));
+    }
     let p = w.probe();
     if want_log {
         log.push(format!("probe: v6={:?} v4={:?} outcome={:?} {:?}", p.v6, p.v4, p.outcome, p.log));
@@ -201,7 +191,7 @@ fn wd() -> &'static Vec<Mutex<WdSlot>> {
 fn wd_secs() -> f64 {
     // 2 s per poll is the design value; the default here is more generous so that a loaded
     // machine cannot produce a false "hang" (a real hang never ends, the margin costs nothing)
-    std::env::var("VERIF_C03_HANG_S").ok().and_then(|s| s.parse().ok()).unwrap_or(8.0)
+    std::env::var("VERIF_C03_HANG_S").ok().and_then(|s| s.parse().ok()).unwrap_or(20.0)
 }
 fn wd_slot() -> usize {
     rayon::current_thread_index().map(|i| i + 1).unwrap_or(0).min(WD_SLOTS - 1)
@@ -335,6 +325,8 @@ struct UnitOut {
     /// (effect, seed index) -> first frame (enumeration order) with that effect
     effects: BTreeMap<(EffectKey, usize), Vec<u8>>,
     viols: Vec<(Viol3, Vec<Ev>)>,
+    /// signature -> (number of injected frames with that verdict, panic locations)
+    viol_stats: BTreeMap<String, (u64, BTreeSet<String>)>,
     machinery: Vec<String>,
     app_panics: BTreeSet<String>,
     seed_effect: Option<bool>,
@@ -359,6 +351,11 @@ impl<'a> Evaluator<'a> {
     }
 
     fn viol(&mut self, v: Viol3, evs: Vec<Ev>) {
+        let e = self.out.viol_stats.entry(v.sig.clone()).or_default();
+        e.0 += 1;
+        if !v.loc.is_empty() {
+            e.1.insert(v.loc.clone());
+        }
         if !self.out.viols.iter().any(|(x, _)| x.sig == v.sig) {
             self.out.viols.push((v, evs));
         }
@@ -572,6 +569,7 @@ struct Explored {
     exhaustive: bool,
     component_names: BTreeMap<String, Vec<String>>,
     notes: Vec<String>,
+    viol_stats: BTreeMap<String, (u64, BTreeSet<String>)>,
 }
 
 /// Scout world: learn what the stack chose, build the catalogue, establish the base state and
@@ -658,6 +656,11 @@ fn merge_cfg(base: &Base, units: &[Unit], outs: Vec<UnitOut>, ex: &mut Explored)
             }
         }
         ex.app_panics.extend(o.app_panics);
+        for (sig, (n, locs)) in o.viol_stats {
+            let e = ex.viol_stats.entry(sig).or_default();
+            e.0 += n;
+            e.1.extend(locs);
+        }
         if let (Unit::Base(si), Some(e)) = (u, o.seed_effect) {
             if e {
                 st.seeds_with_effect += 1;
@@ -746,6 +749,10 @@ fn bfs(cfg: Cfg, base_fp: u128, frames: &[Vec<u8>], depth: usize, budget_s: f64,
                 let r = std::panic::catch_unwind(std::panic::AssertUnwindSafe(|| run_events(cfg, &evs, false)));
                 wd_end();
                 match r {
+                    Ok(r) if r.setup_err.is_some() => {
+                        harness_panics.lock().unwrap().push(format!("world set-up failed inside BFS: {:?}", r.setup_err));
+                        None
+                    }
                     Ok(r) => Some((h2, r.fp, r.viol)),
                     Err(e) => {
                         harness_panics.lock().unwrap().push(format!("HARNESS PANIC in BFS history {}: {} at {}", evs_to_json(&evs), panic_msg(e), last_panic_loc()));
@@ -812,6 +819,7 @@ fn explore(tier: Tier) -> Explored {
         exhaustive: true,
         component_names: BTreeMap::new(),
         notes: vec![],
+        viol_stats: BTreeMap::new(),
     };
     // 802.15.4 with a joined IPv6 group (the configuration DESIGN.md asks for): its very first
     // poll is evaluated on its own, with ZERO received frames. A panic there is not a C03
@@ -882,7 +890,7 @@ fn explore(tier: Tier) -> Explored {
 
 pub fn run(tier: Tier) -> i32 {
     let mut rep = Report::new("C03", tier);
-    rep.assumptions.push("bounds: single-frame pass = every seed of the catalogue, every truncation, every single byte of the first 96 bytes (+ DHCP option area) set to the boundary set {0,1,7,8,0x0f,0x28,0x3f,0x40,0x7f,0x80,0xf0,0xff,orig^1} (quick) or to all 256 values (thorough), each raw and with all locatable checksums recomputed; thorough adds every pair of the first 40 bytes x boundary pairs (checksums recomputed) and all byte strings of length <= 2 (quick: first byte from the boundary set); sequences = BFS to depth 2 (quick) / 3 (thorough) over one representative frame per distinct observable effect + time advances {0, 1 s, 61 s}".into());
+    rep.assumptions.push("bounds: single-frame pass = every seed of the catalogue, every truncation, every single byte of the first 96 bytes (+ DHCP option area, NDISC/DNS message tails, whole 802.15.4 frames) set to the boundary set {0,1,7,8,0x0f,0x28,0x3f,0x40,0x7f,0x80,0xf0,0xff,orig^1} (quick) or to all 256 values (thorough), each raw and with all locatable checksums recomputed; thorough adds every pair of the first 40 bytes x boundary pairs (checksums recomputed) and all byte strings of length <= 2 (quick: first byte from the boundary set); sequences = BFS to depth 2 (quick) / 3 (thorough) over one representative frame per distinct observable effect + time advances {0, 1 s, 61 s}".into());
     rep.assumptions.push("every injected frame meets a FRESH world in the base state and is followed by the probe; pair mutants and 2-byte raw frames get oracle (1)+(2) only (they are not fingerprinted, so they do not count in 'changed state')".into());
     rep.assumptions.push("the application model reads and discards received data after every poll and applies DHCP configuration events (IPv4 address, default route) like examples/dhcp_client.rs; trusted: harness frame builders, independent reply classifier".into());
     rep.assumptions.push("the 802.15.4 worlds used for frame exploration have no joined multicast group (joining one makes the very first poll panic, reported separately) and no IPv4; overflow-checks are ON in this profile, so arithmetic overflow on attacker-controlled lengths is observed as a panic".into());
@@ -896,6 +904,20 @@ pub fn run(tier: Tier) -> i32 {
         return 0;
     }
 
+    if std::env::var("VERIF_C03_SELFTEST").as_deref() == Ok("seeds") {
+        // debugging aid: what every seed of the catalogue does to a fresh world
+        for cfg in all_cfgs() {
+            let scout = World::new(cfg).unwrap();
+            for sd in seeds::catalogue(cfg, &scout.learned) {
+                let r = run_events(cfg, &[Ev::Frame(sd.frame.clone())], true);
+                println!("[{}] {} ({} B, expect_effect={})", cfg.name(), sd.name, sd.frame.len(), sd.expect_effect);
+                for l in r.log {
+                    println!("      {}", l.chars().take(260).collect::<String>());
+                }
+            }
+        }
+        return 0;
+    }
     if std::env::var("VERIF_C03_SELFTEST").as_deref() == Ok("bench") {
         for cfg in all_cfgs() {
             let t = std::time::Instant::now();
@@ -1021,6 +1043,10 @@ pub fn run(tier: Tier) -> i32 {
     rep.cov("per_config", Value::Object(per_cfg));
     rep.cov("per_medium", json!(per_medium));
     rep.cov("fingerprint_components", json!(ex.component_names));
+    rep.cov(
+        "single_frame_verdicts_per_signature",
+        json!(ex.viol_stats.iter().map(|(k, (n, l))| (k.clone(), json!({"frames": n, "panic_locations": l}))).collect::<BTreeMap<_, _>>()),
+    );
     if !ex.notes.is_empty() {
         rep.cov("notes_outside_C03", json!(ex.notes));
     }
